@@ -21,7 +21,7 @@ RULE = (
     "it is a (|a cos phi| if k is self-conjugate) resp. a^2/4 ((a cos phi)^2/2), divided by the number of "
     "stored half-spectrum modes of the bin for 'average'. Generated: white-noise and low-pass states with C "
     "channels against an explicit per-mode sum over the numpy rfftn spectrum, the Parseval sum computed "
-    "from the FULL fftn spectrum, channel independence. Non-trivial: k != 0 / state with energy in >= 3 bins."
+    "from the FULL fftn spectrum, channel independence. Non-trivial: k != 0 / state with energy in >= 3 bins. bin_edges: lattice modes with |k|^2 = m(m+1) or m(m+1)+1 on grids up to 300^2 (exact integer bin). dynamic_range: two modes 1e2..1e10 apart and a weak second channel, per-bin relative accuracy; amplitude homogeneity at state scales 1e-200..1e150."
 )
 ASSUMPTIONS = ["float64 session", "numpy.fft as reference transform"]
 
